@@ -197,7 +197,7 @@ func (r *Run) afterRaw() {
 		if get.Status != 200 || !bytes.Equal(get.Body, ent.Body) || get.Header.Get("ETag") != etagOf(ent) {
 			r.fail("canary", "a correct GET after the hostile traffic does not return the object "+r.bctx(), "200 with the bytes", get.String()+" "+describeBody(get.Body))
 		}
-		ls := do(b, &simnet.Request{Method: "GET", Target: "/" + b + "?prefix=canary%2F"})
+		ls := do(b, &simnet.Request{Method: "GET", Target: "/" + b})
 		var x xListResult
 		if ls.Status != 200 || xml.Unmarshal(ls.Body, &x) != nil {
 			r.fail("canary", "a correct ListObjects after the hostile traffic fails "+r.bctx(), "200", ls.String()+" "+ls.Msg)
